@@ -319,6 +319,30 @@ bf_op(int argc, char **argv)
             }
         }
         printf("bad-op");
+    } else if (strcmp(op, "bf.setc") == 0 && argc == 4) {
+        /* the k-th call of bf_consts.inc: the argument is a literal, so the compiler sees a constant where the
+         * table-driven operations above hand over run-time values */
+        size_t k = parse_u64(argv[1]);
+        unsigned char blk[4 + 8 + 4];
+        memset(blk, 0xee, sizeof blk);
+        unsigned char *ret = NULL;
+        size_t n = 0;
+        const char *nm = NULL;
+        uint64_t pat = 0;
+        switch (k) {
+#define X(idx, fn, nbytes, lit, pattern) \
+        case idx: ret = (unsigned char *)fn(blk + 4, lit); n = nbytes; nm = #fn; pat = pattern; break;
+#include "bf_consts.inc"
+#undef X
+        default: printf("bad-op"); return;
+        }
+        if (strcmp(nm, argv[2]) != 0 || pat != strtoull(argv[3], NULL, 16)) { printf("bad-op"); return; }
+        bool pre = blk[0] == 0xee && blk[1] == 0xee && blk[2] == 0xee && blk[3] == 0xee;
+        for (size_t i = 4 + n; i < sizeof blk; i++) pre = pre && blk[i] == 0xee;
+        int len = snprintf(out, sizeof out, "ret=%td out=", ret - (blk + 4));
+        for (size_t i = 0; i < n; i++) len += snprintf(out + len, sizeof out - len, "%02x", blk[4 + i]);
+        snprintf(out + len, sizeof out - len, " pre=%s", pre ? "ok" : "bad");
+        printf("%s ## %s", out, out);
     } else if (strcmp(op, "bf.sweep") == 0 && argc == 4) {
         const char *nm = argv[1];
         uint64_t lo = parse_u64(argv[2]), hi = parse_u64(argv[3]);
